@@ -40,12 +40,12 @@ PID = 'C09'
 COUNTS = {
     'quick': {
         'rand': 420, 'escape': 120, 'linefar': 60, 'swapin': 50,
-        'qutrit': 40, 'small': 120, 'pam': 2,
+        'qutrit': 40, 'small': 120, 'pam': 2, 'seqpam': 6,
     },
     'thorough': {
         'rand': 4500, 'escape': 1500, 'linefar': 600, 'swapin': 500,
         'qutrit': 400, 'small': -1,   # -1: exhaustive (see small_cases)
-        'pam': 25,
+        'pam': 25, 'seqpam': 60,
     },
 }
 SABRE_TIMEOUT_S = 300     # watchdog per SABRE compile (inconclusive, not a verdict)
@@ -877,18 +877,152 @@ def eval_pam(drv: Driver, case: dict[str, Any], timeout: int) -> dict[str, Any]:
     res['nontrivial'] = bool(info['swaps'] or info['nonidentity_perms'] or laid['placement'] != list(range(len(laid['placement']))))
     return res
 
+# ------------------------------------------------------------ SeqPAM (two stages)
+def make_seqpam_case(seed: int, idx: int, tier: str) -> dict[str, Any]:
+    """Inputs for compile.py's two-stage SeqPAM workflow. The first stage
+    (routing on the all-to-all relaxation) only ends with a non-identity
+    permutation when a block is cheaper with permuted inputs, so the inputs
+    contain dressed SWAPs (three alternating CNOTs) and plain SWAP gates."""
+    rng = core.rng_for(seed, PID, 7, idx)
+    n = 3 if idx % 2 == 0 else int(rng.choice([3, 4]))
+    N = n + int(rng.integers(0, 2))
+    kind, edges = gen_graph(rng, N, ['line', 'line', 'star'])
+    ops: list[list[Any]] = []
+
+    def one(q: int) -> None:
+        name = str(rng.choice(['U3', 'RZ', 'RY', 'H', 'T']))
+        ops.append([name, [q], gen.rand_params(rng, M.num_params(name), 'generic')])
+
+    def dressed_swap(a: int, b: int) -> None:
+        if rng.random() < 0.3:
+            ops.append(['SWAP', [a, b], []])
+            return
+        for x, y in ((a, b), (b, a), (a, b)):
+            ops.append(['CX', [x, y], []])
+
+    nsw = int(rng.integers(1, 3))
+    pos = sorted(int(x) for x in rng.choice(6, nsw, replace=False))
+    for step in range(6):
+        a, b = (int(x) for x in rng.choice(n, 2, replace=False))
+        if step in pos:
+            dressed_swap(a, b)
+        else:
+            name = str(rng.choice(['CX', 'CX', 'CZ']))
+            ops.append([name, [a, b], []])
+            one(a)
+            one(b)
+    used = {q for o in ops if len(o[1]) >= 2 for q in o[1]}
+    for q in range(n):
+        if q not in used:
+            ops.append(['CX', [q, (q + 1) % n], []])
+    return {
+        'engine': 'seqpam', 'family': 'seqpam', 'idx': idx, 'radix': 2,
+        'n': n, 'N': N, 'graph': kind, 'edges': edges, 'ops': ops,
+        'block_size': 2, 'eps': 1e-8, 'optimization_level': 3,
+        'num_layout_passes': int(rng.integers(1, 4)),
+        'seed': int(rng.integers(1, 2**31 - 1)),
+    }
+
+
+def eval_seqpam(drv: Driver, case: dict[str, Any], timeout: int) -> dict[str, Any]:
+    res: dict[str, Any] = {'w': [], 'c': {}, 'nontrivial': False, 'inconclusive': None}
+
+    def cnt(k: str, v: int = 1) -> None:
+        res['c'][k] = res['c'].get(k, 0) + v
+
+    def bad(w: dict[str, Any]) -> None:
+        w = dict(w)
+        w['case'] = case
+        res['w'].append(w)
+
+    n, N, radix = case['n'], case['N'], case['radix']
+    eps = float(case['eps'])
+    adj = M.adjacency(N, case['edges'])
+    circuit = M.build_circuit(n, radix, case['ops'])
+    model = M.build_model(N, radix, case['edges'])
+    cnt('seqpam_cases')
+    t0 = time.monotonic()
+    try:
+        out, data = drv.compile(circuit, M.seqpam_workflow(case, model), timeout, data={'seed': int(case['seed'])})
+    except BaseException as e:  # noqa
+        if isinstance(e, (KeyboardInterrupt, SystemExit)):
+            raise
+        info = remote_error(e)
+        if info['timeout']:
+            res['inconclusive'] = 'watchdog: a SeqPAM case did not finish in %d s' % timeout
+            cnt('timeouts')
+            return res
+        up = upstream_failure(info)
+        if up:
+            cnt('upstream_failure:' + up)
+            res['upstream'] = dict(owner=up, family=case['family'], idx=case['idx'], **info)
+            return res
+        cnt('raised')
+        bad(dict(kind='raised:%s:%s' % (info['exc'], info['site']), **info))
+        return res
+    res['wall_s'] = round(time.monotonic() - t0, 1)
+    cnt('seqpam_compiled')
+    rec = M.records(data)
+    im = [int(x) for x in data.initial_mapping]
+    fm = [int(x) for x in data.final_mapping]
+    placement = [int(x) for x in data.placement]
+    s1 = rec.get('stage1')
+    res['summary'] = {
+        'engine': 'seqpam', 'n': n, 'N': N, 'graph': case['graph'], 'placement': placement,
+        'stage1_final_mapping': s1['final_mapping'] if s1 else None,
+        'initial_mapping': im, 'final_mapping': fm, 'ops_out': out.num_operations, 'wall_s': res['wall_s'],
+    }
+    if s1 is None:
+        bad(dict(kind='seqpam:no_stage1_record'))
+        return res
+    stage1_permuted = list(s1['final_mapping']) != list(s1['initial_mapping'])
+    if stage1_permuted:
+        cnt('seqpam_first_stage_ended_permuted')
+    for w in M.sanity_mappings(n, N, placement, im, fm):
+        bad(w)
+    if not M.connected_in(adj, placement):
+        bad(dict(kind='placement:disconnected', pass_name='seqpam', placement=placement))
+    if out.num_qudits != N:
+        bad(dict(kind='output:width', got=out.num_qudits, want=N))
+    cnt('placement_checked')
+    if res['w']:
+        return res
+    ws, c2 = M.coupling_violations(out, adj)
+    for w in ws[:3]:
+        bad(w)
+    cnt('coupling_checked')
+    if N <= REFSIM_MAX_N and len(set(im)) == n and len(set(fm)) == n:
+        cost, leak = M.mapped_cost_of(circuit, out, im, fm)
+        k = sum(1 for o in case['ops'] if len(o[1]) >= 2)
+        budget = max(floor_for(out.num_operations), (2 * k + 1) ** 2 * eps)
+        if cost > budget or leak > 2 * np.sqrt(2 * budget) + LEAK_TOL:
+            bad(dict(
+                kind='refsim:mapped_cost', pass_name='seqpam', cost=cost, leakage=leak, budget=budget,
+                initial_mapping=im, final_mapping=fm, stage1_final_mapping=s1['final_mapping'],
+            ))
+        cnt('seqpam_refsim_checked')
+        if stage1_permuted:
+            cnt('seqpam_refsim_checked_after_permuting_first_stage')
+        res['summary']['cost'] = cost
+        res['summary']['budget'] = budget
+    res['nontrivial'] = bool(stage1_permuted or im != fm)
+    return res
+
+
 # ------------------------------------------------------------ batch worker
 def run_batch(arg: tuple[list[dict[str, Any]], int, str]) -> list[dict[str, Any]]:
     cases, hashseed, tier = arg
     out = []
     retried = 0
-    drv = Driver(4 if cases and cases[0]['engine'] == 'pam' else 1, hashseed)
+    drv = Driver(4 if cases and cases[0]['engine'] in ('pam', 'seqpam') else 1, hashseed)
     try:
         for case in cases:
             try:
                 for attempt in (0, 1):
                     if case['engine'] == 'pam':
                         r = eval_pam(drv, case, PAM_TIMEOUT_S[tier])
+                    elif case['engine'] == 'seqpam':
+                        r = eval_seqpam(drv, case, PAM_TIMEOUT_S[tier])
                     else:
                         r = eval_sabre(drv, case)
                     # a watchdog expiry is usually a starved or half-started
@@ -958,7 +1092,13 @@ def main(tier: str, seed: int, replay: str | None = None) -> int:
     pam_batches = [[] for _ in range(min(pam_par, len(pam_cases)))]
     for i, c in enumerate(pam_cases):
         pam_batches[i % len(pam_batches)].append(c)
+    seqpam_cases = [make_seqpam_case(seed, i, tier) for i in range(counts['seqpam'])]
+    sq_par = 2 if tier == 'quick' else 5
+    sq_batches = [[] for _ in range(min(sq_par, len(seqpam_cases)))]
+    for i, c in enumerate(seqpam_cases):
+        sq_batches[i % len(sq_batches)].append(c)
     batches = [(b, hashseed, tier) for b in pam_batches] + \
+        [(b, hashseed, tier) for b in sq_batches] + \
         [(b, hashseed, tier) for b in chunks(cases, per)]
     t0 = time.monotonic()
     try:
@@ -991,6 +1131,8 @@ def main(tier: str, seed: int, replay: str | None = None) -> int:
         ('input_with_swaps_refsim_only', 3), ('cases_qutrit', 3),
         ('pam_compiled', 1), ('pam_walk_checked', 1), ('pam_refsim_checked', 1),
         ('pam_blocks_checked', 1),
+        ('seqpam_compiled', 1), ('seqpam_refsim_checked', 1),
+        ('seqpam_refsim_checked_after_permuting_first_stage', 1),
     ):
         run.require(c, m)
     if tier == 'thorough':
@@ -1003,7 +1145,7 @@ def main(tier: str, seed: int, replay: str | None = None) -> int:
             'seeded circuits of 2-8 qudits (1/2/3-qudit gates, barriers, optional QuickPartitioner blocks; '
             'qutrit circuits; inputs with SWAPs decided by refsim only) x connected coupling graphs on <=10 qudits '
             '(gen.graph_edges kinds randomly relabelled, machines up to 3 qudits wider; all connected labelled graphs on <=%s vertices%s) '
-            'x placement pass x SABRE parameters, plus PAM cases; distinct = distinct case recipe; non-trivial = routing inserted '
+            'x placement pass x SABRE parameters, plus PAM cases (second half of SeqPAM with recorders) and SeqPAM cases (compile.py\'s whole two-stage workflow on inputs with dressed SWAPs, so that the second routing composes with a first stage that ended permuted); distinct = distinct case recipe; non-trivial = routing inserted '
             'a swap or the final placement is not the identity (PAM: a swap was inserted or a block permutation is not the identity)'
             % ('5', ' exhaustively, 3 circuits each' if tier == 'thorough' else ' (<=4 exhaustive, 5 sampled)')
         ),
